@@ -38,7 +38,17 @@ func pkgNameOf(file string) string {
 
 // replayNative runs the harness natively on the vector. It reports whether the same
 // failure (assertion label or a panic) reproduces, plus a short transcript.
+// replayWitness runs the harness natively on a reachability witness: the native run must reach
+// the same marker without any failed assertion or panic (translator validation, DESIGN §2.10).
+func replayWitness(h *HarnessDef, vec []VecEntry, marker, tier, tags string) (bool, string) {
+	return replayNativeMode(h, vec, marker, "witness", tier, tags)
+}
+
 func replayNative(h *HarnessDef, vec []VecEntry, label, kind, tier, tags string) (bool, string) {
+	return replayNativeMode(h, vec, label, kind, tier, tags)
+}
+
+func replayNativeMode(h *HarnessDef, vec []VecEntry, label, kind, tier, tags string) (bool, string) {
 	tmp, err := os.MkdirTemp("", "verif-replay-")
 	if err != nil {
 		return false, err.Error()
@@ -94,6 +104,9 @@ func TestVerifReplay(t *testing.T) {
 	cmd := exec.Command("go", "test", "-tags="+bt, "-vet=off", "-count=1", "-v", "-run", "^TestVerifReplay$", "-overlay", ovf, "-timeout", "120s", "./"+h.PkgDir)
 	cmd.Dir = repoDir
 	cmd.Env = append(goEnv(), "VERIF_VECTOR="+vf, "VERIF_TIER="+tier)
+	if kind == "witness" {
+		cmd.Env = append(cmd.Env, "VERIF_WITNESS=1")
+	}
 	t0 := time.Now()
 	out, _ := cmd.CombinedOutput()
 	_ = t0
@@ -107,6 +120,17 @@ func TestVerifReplay(t *testing.T) {
 			return kind == "panic", "crash: " + firstLines(s, 3)
 		}
 		return false, "replay did not run: " + firstLines(s, 6)
+	}
+	if kind == "witness" {
+		switch {
+		case strings.Contains(s, "ASSERT-FAILED: "):
+			return false, "native run fails an assertion on the witness: " + firstLines(s, 4)
+		case strings.Contains(s, "PANIC: "):
+			return false, "native run panics on the witness: " + firstLines(s, 4)
+		case !strings.Contains(s, "REACH: "+label+"\n"):
+			return false, "native run does not reach the marker: " + firstLines(s, 4)
+		}
+		return true, "marker reached natively"
 	}
 	if kind == "panic" {
 		if strings.Contains(s, "PANIC: ") {
